@@ -376,3 +376,82 @@ Example C13_producer_output_nonvacuous :
   W.names (W.output (W.wd_put d2 "seed.txt"%string 120000)) = ["out.dat"%string] /\
   W.names (W.output (W.stage_in d0 ["seed.txt"%string] ["f.txt"%string] 100000)) = ["f.txt"%string].
 Proof. vm_compute. repeat split; reflexivity. Qed.
+
+(* ------------------------------------------------------------------ the kill delay WITH ITS VALUE (Delay.v) *)
+(* The timer is no longer scripted: kill-after-producers-done-delay is configured with a value (any number of
+   milliseconds, 0 = "stop as soon as the producers are done" included), the notification arms the timer, the clock makes
+   it expire - between two events, during the execution in flight, or at the very moment of a notification that
+   arrives during an execution.  DL.tfinal = the state after a timed script (steps: sleep, events, task outcome, "the
+   notification arrives during this execution"); snd = the time at which the pending timer was armed. *)
+Require V.Repeat.Delay.
+Module DL := V.Repeat.Delay.
+
+(* "... or the configured kill delay expires": whatever the script - any task durations and outcomes, any placement of
+   the notification -, at every moment at which the engine has been told that its producers are finished, the option is
+   set and the clock has reached (time the timer was armed) + delay, the engine is cancelled (and then stops:
+   C13_cancelled_then_stops).  Every value of the delay, 0 and negative included. *)
+Theorem C13_kill_delay_expires : forall c d l,
+  DL.durs_ok l ->
+  let sd := DL.tfinal c d (init c, c_t0 c) l in
+  pf (fst sd) = true -> c_has_delay c = true -> snd sd + d <= now (fst sd) -> cancel (fst sd) = true.
+Proof. exact DL.kill_delay_expires. Qed.
+Print Assumptions C13_kill_delay_expires.
+
+(* ... the time the timer records is that of the notification that armed it *)
+Theorem C13_kill_delay_armed_at_notification : forall c d s tn,
+  armed s = false -> snd (DL.tev c d (s, tn) Notify) = now s.
+Proof. exact DL.armed_at_notification. Qed.
+Print Assumptions C13_kill_delay_armed_at_notification.
+
+(* the boundary value: with delay 0 an engine whose producers are finished is cancelled at EVERY observation - the
+   configured value 0 is a configured delay (DL.with_delay: c_has_delay = is_some d), not an absent one *)
+Theorem C13_kill_delay_zero : forall c d l,
+  d <= 0 -> Forall DL.tsstep_ok l ->
+  let sd := DL.tfinal c d (init c, c_t0 c) l in
+  pf (fst sd) = true -> c_has_delay c = true -> cancel (fst sd) = true.
+Proof. exact DL.kill_delay_zero. Qed.
+Print Assumptions C13_kill_delay_zero.
+
+(* a timer that expires during the very execution in which the notification arrives stops the engine with that
+   execution: cancelled, the monitor returns, no retry is used, exactly that one launch is recorded *)
+Theorem C13_mid_execution_expiry_stops : forall c s o,
+  let x := last_tick (DL.act_mid c s o) in
+  cancel x = true /\ mon_done x = true /\ alive x = false /\ retries x = retries s /\
+  execs x = {| x_launch := now s; x_pf := pf s; x_rc := if o_fail o then None else Some (o_rc o) |} :: execs s.
+Proof. exact DL.act_mid_stops. Qed.
+Print Assumptions C13_mid_execution_expiry_stops.
+
+(* the observations of a timed script (what the correspondence compares, DL.check_case5) are taken in the states
+   C13_kill_delay_expires / _zero speak about *)
+Theorem C13_timed_observations : forall c d l sd, snd (DL.trun_steps c d sd l) = DL.tfinal c d sd l.
+Proof. intros c d l sd. exact (DL.trun_steps_final c d l sd). Qed.
+Print Assumptions C13_timed_observations.
+
+(* non-vacuity: delay 0 - a 12 s task is in flight when the producers finish: the timer expires at once, the observer
+   stops with that execution (one launch, all retries left); the same script with the option absent carries on (3 more
+   launches); delay 12 s, failing executions: two more executions, the timer expires during the second *)
+Definition ex_long rc dur := {| o_fail := false; o_rc := rc; o_dur := dur; o_re := false; o_sui := false |}.
+Definition ex_tcfg (d : option Z) : cfg := DL.with_delay
+  {| c_retries := Some 3; c_prods := [pr true false]; c_check_out := true; c_has_delay := false; c_interval := 10000; c_t0 := 100000 |} d.
+Definition ex_tscript : list DL.tsstep :=
+  [(0, [Out 0], ex_long 1 12000, true); (5000, [], ex_long 1 1000, false); (5000, [], ex_long 1 1000, false);
+   (5000, [], ex_long 1 1000, false)].
+Example C13_kill_delay_nonvacuous :
+  c_has_delay (ex_tcfg (Some 0)) = true /\ c_has_delay (ex_tcfg None) = false /\
+  DL.durs_ok ex_tscript /\ Forall DL.tsstep_ok ex_tscript /\
+  (let sd := DL.tfinal (ex_tcfg (Some 0)) 0 (init (ex_tcfg (Some 0)), 100000) ex_tscript in
+   pf (fst sd) = true /\ snd sd = 112000 /\ cancel (fst sd) = true /\ mon_done (fst sd) = true /\ suicide (fst sd) = true /\
+   map x_launch (rev (execs (fst sd))) = [100000] /\ retries (fst sd) = 3) /\
+  (let sd := DL.tfinal (ex_tcfg None) 0 (init (ex_tcfg None), 100000) ex_tscript in
+   pf (fst sd) = true /\ cancel (fst sd) = false /\ List.length (execs (fst sd)) = 4%nat) /\
+  (let sd := DL.tfinal (ex_tcfg (Some 12000)) 12000 (init (ex_tcfg (Some 12000)), 100000)
+               [(0, [Out 0], ex_long 1 1000, false); (5000, [Notify], ex_long 1 1000, false); (5000, [], ex_long 1 26000, false);
+                (5000, [], ex_long 1 1000, false)] in
+   snd sd = 106000 /\ cancel (fst sd) = true /\ suicide (fst sd) = true /\ now (fst sd) = 143000 /\
+   map x_launch (rev (execs (fst sd))) = [100000; 106000; 112000] /\ retries (fst sd) = 2).
+Proof.
+  split; [reflexivity|]. split; [reflexivity|].
+  split. { intros k Hk. cbn in Hk. repeat (destruct Hk as [<-|Hk]; [cbn; lia|]). destruct Hk. }
+  split. { repeat constructor; cbn; lia. }
+  vm_compute. repeat split; reflexivity.
+Qed.
